@@ -539,6 +539,11 @@ def run(ctx, focus):
         cases += 1
         # the program itself: quit by a typed q while guesses flow, another session whose name differs only after the last dot, resume
         from props import C15 as _c15
+        # "any point at which the user quits", on a Markov part whose memo table is asked about negative remainders: quit inside the
+        # levels at many places, resume in a fresh process
+        v_cc, r_cc = _c15.cold_cache_history('C08')
+        violations += v_cc
+        cases += r_cc
         vs_cli, info_cli = _c15.cli_interleaved_sessions('C08', 'c08audit', _c15.big_plain_spec())
         violations += vs_cli
         cases += 1
@@ -568,6 +573,10 @@ def replay(ctx, payload, focus):
         common.use_impl()
         return _c15l.limited_resume_history(focus)[0]
     w = payload.get('violation', {}).get('witness') or payload.get('witness')
+    if w and w.get('cold_cache_history'):
+        from props import C15 as _c15c
+        common.use_impl()
+        return _c15c.cold_cache_history(focus)[0]
     if w and w.get('high_level_case'):
         from props import C14 as _c14h
         return _c14h.high_level_case(focus)
